@@ -414,7 +414,7 @@ pub fn grid(c: &Ctx) -> Result<(), Violation> {
 
 /// Halted-trading clauses of C13 (model-free part).
 pub fn halt(c: &Ctx) -> Result<(), Violation> {
-    if let Prim::Trading(_) = c.prim {
+    if matches!(c.prim, Prim::Trading(_) | Prim::TradingAsset { .. }) {
         for a in 0..c.post.len() {
             if let Some(d) = c.pre[a].diff(&c.post[a]) {
                 return Err(c.v("traded-while-halted", format!("asset{}.{}", a, d.0), d.1, d.2).detail("switching the trading flag changed the book by itself".into()));
